@@ -387,6 +387,65 @@ def r6(ctx, retsets):
     ctx.floor("C14.R6", n, 15)
 
 
+def r7b(ctx):
+    pdb = ctx.pdb
+    ctx.rule("C14.R10", "the error text handed to a report is initialised memory for its whole stated length: a constant array "
+             "initialised from a literal of the same size, or a formatted buffer whose length is taken with strlen()+1")
+    n = 0
+    for callee in REPORTERS[:2]:
+        for c in pdb.callers(callee):
+            fn = c.fn
+            te = vf.expr(fn, c.args[4])
+            le = vf.expr(fn, c.args[5])
+            if te == ("c", 0):
+                n += 1
+                ctx.check(le == ("c", 0), "C14.R10", "text:%s#%d" % (fn.name, _ord(fn, c)), c.loc(), "no text, length %s" % vf.show(le),
+                          key="C14.R10:%s:%d" % (fn.name, _ord(fn, c)))
+                continue
+            if te[0] == "arg":
+                continue   # forwarded
+            al = vf.alloca_of(fn, c.args[4])
+            if al is None:
+                n += 1
+                ctx.violation("C14.R10", "text:%s#%d" % (fn.name, _ord(fn, c)), c.loc(), "text is %s: not a local buffer" % vf.show(te),
+                              key="C14.R10:%s:%d" % (fn.name, _ord(fn, c)))
+                continue
+            n += 1
+            cnt = vf.expr(fn, al["count"])
+            size = al["elsize"] * cnt[1] if cnt[0] == "c" else None
+            inits = [m for m in fn.calls() if (m.callee or "").startswith("llvm.memcpy") and vf.alloca_of(fn, m.args[0]) is al and fn.dom(m, c)]
+            full = any(vf.expr(fn, m.args[1])[0] == "g" and vf.expr(fn, m.args[2]) == ("c", size) for m in inits)
+            def strlen_plus1(e):
+                return e[0] == "bin" and e[1] == "add" and e[3] == ("c", 1) and e[2][0] == "call" and e[2][1] == "strlen" and \
+                    vf.root_of(e[2][3][0]) == ("alloca", al.id, al.get("name", ""))
+            # snprintf with a constant format and constant integer arguments writes a computable number of bytes
+            written = None
+            for sp in fn.calls("snprintf"):
+                if vf.alloca_of(fn, sp.args[0]) is al and fn.dom(sp, c):
+                    fe = vf.expr(fn, sp.args[2])
+                    g = pdb.glob_in(fn.unit, fe[1]) if fe[0] == "g" else None
+                    fmt = g["init"]["str"] if g and isinstance(g.get("init"), dict) else None
+                    vals = [vf.expr(fn, a) for a in sp.args[3:]]
+                    if fmt is not None and all(v[0] == "c" for v in vals):
+                        try:
+                            out = fmt.replace("%u", "%d") % tuple(v[1] for v in vals)
+                            lim = vf.expr(fn, sp.args[1])
+                            written = min(len(out) + 1, lim[1]) if lim[0] == "c" else None
+                        except (TypeError, ValueError):
+                            written = None
+            if full:
+                good = (le[0] == "c" and le[1] <= size) or strlen_plus1(le)
+                why = "array initialised from a literal of %s bytes, %s sent" % (size, vf.show(le))
+            elif written is not None and le[0] == "c":
+                good = le[1] <= written
+                why = "snprintf of a constant format writes %d bytes, %s sent" % (written, vf.show(le))
+            else:
+                good = strlen_plus1(le)
+                why = "formatted buffer of %s bytes, length %s (must be strlen(buffer)+1)" % (size, vf.show(le))
+            ctx.check(good, "C14.R10", "text:%s#%d" % (fn.name, _ord(fn, c)), c.loc(), why, key="C14.R10:%s:%d" % (fn.name, _ord(fn, c)))
+    ctx.floor("C14.R10", n, 15)
+
+
 def r7(ctx):
     pdb = ctx.pdb
     ctx.rule("C14.R7", "the structs the client builds PDUs in (serial query, reset query, error header) have no padding and the "
@@ -590,8 +649,13 @@ def check(ctx):
     r5(ctx, retsets)
     r6(ctx, retsets)
     r7(ctx)
+    r7b(ctx)
     r8(ctx)
     r9(ctx, retsets)
+    from specs import C04
+    with ctx.shared({"C04.R5": ("C14.R11", "however the transport splits the writes, tr_send_all hands the remaining bytes (buffer + done, len - done) "
+                                "to the transport until all are out and stops at the first negative result")}):
+        C04.r5(ctx, retsets)
     ctx.not_decided("partial-write behaviour of user-supplied transports (tr_send_all loops until len bytes are out: C04.R5)")
 
 
